@@ -1,8 +1,7 @@
 SPECIFICATION Spec
 CONSTANTS
   W = 2
-  ExprSet <- ExprsQuick
-  ResultSet <- ResultsA
+  Domain = "quick"
   SharedLeafMasks = FALSE
 INVARIANTS TestOK AllOK AnyOK MatchPure ApplyOK Repeatable
 CHECK_DEADLOCK FALSE
